@@ -1338,6 +1338,10 @@ PREFIX(_intersect_rect) (region_type_t *dest,
     region.extents.x2 = x + width;
     region.extents.y2 = y + height;
 
+    /* A rectangle without area is the empty region, not "one rectangle" */
+    if (!GOOD_RECT (&region.extents))
+	region.data = pixman_region_empty_data;
+
     return PREFIX(_intersect) (dest, source, &region);
 }
 
